@@ -32,7 +32,8 @@ TX_OF_TYPE = {'NumericMetricDescriptor': 'metric', 'ChannelDescriptor': 'comp', 
               'AlertSystemDescriptor': 'alert', 'ScoDescriptor': 'comp', 'ActivateOperationDescriptor': 'op',
               'RealTimeSampleArrayMetricDescriptor': 'rt'}
 
-DEFAULT_WEIGHTS = {'state': 5, 'ctx': 2, 'location': 1, 'descr': 3, 'reject': 1, 'abort': 1, 'macro': 2}
+DEFAULT_WEIGHTS = {'state': 5, 'ctx': 2, 'location': 1, 'descr': 3, 'reject': 1, 'abort': 1, 'macro': 2, 'empty': 1,
+                   'catch': 1}
 
 # orders in which the states of two MDSs (A, B) follow each other inside ONE transaction
 PATTERNS = ('ABA', 'BAB', 'AAB', 'ABB', 'BAA', 'BBA', 'ABAB', 'ABBA', 'ABABA')
@@ -1018,6 +1019,141 @@ class Gen:
                 ops.append({'k': 'descr', 'iface': 'classic', 'actions': [['updsrc', sig, v]]})
         return ops
 
+    # ------------------------------------------------------------------ empty transactions, handled rejections
+    def op_empty(self, kind=None, form=None):
+        """a transaction that ends up empty: nothing may change, no report, MdibVersion stays.  Forms: an empty `with`
+        block; get_state followed by unget_state; every call rejected and the rejection handled inside the body"""
+        kind = kind or self.rng.choice(['metric', 'alert', 'comp', 'op', 'rt', 'ctx', 'descr'])
+        form = form or self.rng.choice(['none', 'unget', 'rejected'])
+        if kind in ('ctx', 'descr'):
+            acts = []
+            if form != 'none':
+                acts = ([['get', 'no_such_state', self.fresh(), None]] if kind == 'ctx' else
+                        [self.rng.choice([['upd', 'no_such_handle', self.fresh()], ['del', 'no_such_handle']])])
+            return {'k': kind, 'iface': self.iface(), 'actions': acts, 'catch': bool(acts), 'tag': ['empty-transaction']}
+        pool = self.state_pool(kind)
+        op = {'k': 'state', 'tx': kind, 'iface': 'classic', 'items': [], 'tag': ['empty-transaction']}
+        if form == 'unget' and pool:
+            hs = self.rng.sample(pool, min(len(pool), self.rng.choice([1, 1, 2])))
+            op['items'] = [[h, self.fresh()] for h in hs]
+            op['unget'] = list(range(len(hs)))
+        elif form == 'rejected':
+            op['iface'] = self.iface()
+            op['items'] = [self.bad_item(kind) for _ in range(self.rng.choice([1, 2]))]
+            op['catch'] = True
+        return op
+
+    def bad_item(self, kind):
+        """an item that the state transaction of `kind` refuses"""
+        others = [h for k in ('metric', 'alert', 'comp', 'op') if k != kind for h in self.live(k)]
+        if others and self.rng.random() < 0.6:
+            return [self.rng.choice(others), self.fresh()]          # wrong kind: ApiUsageError
+        return ['no_such_handle', self.fresh()]                     # KeyError
+
+    def op_catch(self, batch=False):
+        """a transaction in which some API calls are refused, the application handles the exception inside the `with`
+        body and the body ends normally: the refused calls leave nothing behind, everything else is committed"""
+        r = 0 if batch else self.rng.random()
+        if r < 0.55:
+            kind = self.rng.choice(['metric', 'metric', 'alert', 'comp', 'op'])
+            op = self.op_state(kind, interleave=False, dup=False, iface='entity' if batch else None)
+            if op is None:
+                return None
+            if op['iface'] == 'entity' and len(op['items']) >= 1 and (batch or self.rng.random() < 0.6):
+                # ONE write_entities call with a bad element at a random position: none of its entities is written
+                k = len(op['items'])
+                ctxd = self.live('ctx')
+                bad = [self.rng.choice(ctxd), self.fresh()] if ctxd and self.rng.random() < 0.3 else None
+                if bad is None:
+                    others = [h for kk in ('metric', 'alert', 'comp', 'op') if kk != kind for h in self.live(kk)]
+                    if not others:
+                        return None
+                    bad = [self.rng.choice(others), self.fresh()]
+                op['items'].insert(self.rng.randint(0, k), bad)
+                op['batch'] = k + 1
+                if self.rng.random() < 0.5:     # and a good statement after it
+                    rest = [h for h in self.state_pool(kind) if h not in [i[0] for i in op['items']]]
+                    if rest:
+                        op['items'].append([self.rng.choice(rest), self.fresh()])
+                op.setdefault('tag', []).append('write_entities-bad-element')
+            else:
+                for _ in range(self.rng.choice([1, 1, 2])):
+                    bad = self.bad_item(kind)
+                    if op['iface'] == 'classic' and self.rng.random() < 0.35:
+                        bad = [self.rng.choice(op['items'])[0], self.fresh()]     # a second get_state: ValueError
+                        pos = len(op['items'])
+                    else:
+                        pos = self.rng.randint(0, len(op['items']))
+                    op['items'].insert(pos, bad)
+        elif r < 0.75:
+            op = self.op_ctx()
+            if op is None or op.get('expect') or any(a[0] == 'delstate' for a in op['actions']):
+                return None
+            metrics = self.live('metric')
+            bad = [['get', 'no_such_state', self.fresh(), None]]
+            if op['iface'] == 'classic':
+                if metrics:
+                    bad.append(['mk', self.rng.choice(metrics), f'cs{self._nc()}', False, self.fresh()])   # not a context descriptor
+                explicit = sorted(h for h in self.ctx_states if not h.startswith('gen'))   # (literal handles only)
+                if explicit:
+                    h = self.rng.choice(explicit)
+                    if not any(a[0] in ('mk', 'get') and h in a[1:3] for a in op['actions']):
+                        bad.append(['mk', self.ctx_states[h], h, False, self.fresh()])             # the handle exists
+            op['actions'].insert(self.rng.randint(0, len(op['actions'])), self.rng.choice(bad))
+        else:
+            op = self.op_descr()
+            if op is None or op.get('subtree_conflict') or op.get('expect'):
+                return None
+            bad = [['upd', 'no_such_handle', self.fresh()], ['del', 'no_such_handle']]
+            if op.get('iface') == 'classic':
+                # (through the entity interface writing an existing handle is an update, and get_state is not offered)
+                bad += [['add', self.rng.choice(sorted(self.inv['tree'])), None, 'ChannelDescriptor', self.fresh(), None],
+                        ['state', self.rng.choice(self.inv['metric']), self.fresh()]]
+            bad = self.rng.choice(bad)
+            if bad[0] == 'state' and any(a[1] == bad[1] for a in op['actions']):
+                bad = ['del', 'no_such_handle']
+            if bad[0] == 'add' and any(a[1] == bad[1] for a in op['actions']):
+                bad = ['upd', 'no_such_handle', self.fresh()]
+            op['actions'].insert(self.rng.randint(0, len(op['actions'])), bad)
+        op['catch'] = True
+        op.setdefault('tag', []).append('rejected-call-handled')
+        return op
+
+    def macro_empty_and_handled(self):
+        """empty transactions of every kind in every form, then transactions with handled rejections"""
+        ops = []
+        for kind in ('metric', 'alert', 'comp', 'op', 'rt', 'ctx', 'descr'):
+            for form in self.rng.sample(['none', 'unget', 'rejected'], 2):
+                ops.append(self.op_empty(kind, form))
+        for j in range(10):
+            op = self.op_catch(batch=j % 3 == 0)
+            if op:
+                ops.append(op)
+        return ops
+
+    def macro_repeat(self, kinds=None):
+        """the same state transaction (same kind, same handles) two or three times in a row: every one of them is
+        reported and every report raises its notification on the consumer"""
+        ops = []
+        for kind in kinds or [self.rng.choice(['metric', 'alert', 'comp', 'op', 'rt', 'ctx'])]:
+            if kind == 'ctx':
+                hs = sorted(self.ctx_states)
+                if not hs:
+                    continue
+                hs = self.rng.sample(hs, min(len(hs), self.rng.choice([1, 2])))
+                for _ in range(self.rng.choice([2, 3])):
+                    ops.append({'k': 'ctx', 'iface': self.iface(), 'actions': [['get', h, self.fresh(), None] for h in hs],
+                                'tag': ['same-handles-again']})
+                continue
+            pool = self.state_pool(kind)
+            if not pool:
+                continue
+            hs = self.rng.sample(pool, min(len(pool), self.rng.choice([1, 2, 3])))
+            for _ in range(self.rng.choice([2, 3])):
+                ops.append({'k': 'state', 'tx': kind, 'iface': self.iface(), 'items': [[h, self.fresh()] for h in hs],
+                            'tag': ['same-handles-again']})
+        return ops
+
     def macro_interleave(self):
         """every state transaction kind with states of two MDSs in an order in which the MDSs alternate"""
         ops = []
@@ -1034,14 +1170,29 @@ class Gen:
 
     def macro(self):
         k = self.rng.choice(['cycles', 'cycles', 'ctx_cycles', 'abort_recreate', 'abort_recreate', 'stale', 'stale', 'stale',
-                             'new_mds', 'ctx_descr_upd', 'ctx_descr_upd', 'overtake'] + (['delstate_cycles'] if self.w.get('delstate') else []))
+                             'new_mds', 'ctx_descr_upd', 'ctx_descr_upd', 'overtake', 'repeat', 'repeat'] + (['delstate_cycles'] if self.w.get('delstate') else []))
         return {'delstate_cycles': self.macro_delstate_cycles, 'cycles': self.macro_cycles, 'ctx_cycles': self.macro_ctx_cycles, 'abort_recreate': self.macro_abort_recreate,
                 'stale': self.macro_stale, 'new_mds': self.macro_new_mds, 'ctx_descr_upd': self.macro_ctx_descr_upd,
-                'overtake': self.macro_stale_after_delete}[k]()
+                'overtake': self.macro_stale_after_delete, 'repeat': self.macro_repeat}[k]()
+
+    def finish(self, ops):
+        """context states whose (explicit) handle existed before come back through add_state in most classic
+        transactions: the application builds the container itself, with (True) or without ('bare') its descriptor"""
+        for op in ops:
+            if (op['k'] == 'ctx' and op.get('iface') == 'classic' and 'add_state' not in op
+                    and {'recreate', 'aborted-recreate'} & set(op.get('tag', []))
+                    and all(a[2] is not None and len(a) == 5 for a in op['actions'] if a[0] == 'mk')
+                    and self.rng.random() < 0.65):
+                op['add_state'] = self.rng.choice([True, 'bare'])
+        return ops
 
     def history(self, nops):
+        return self.finish(self._history(nops))
+
+    def _history(self, nops):
         ops = []
-        choices = [k for k, w in self.w.items() if k in ('state', 'ctx', 'location', 'descr', 'reject', 'abort', 'macro')
+        choices = [k for k, w in self.w.items() if k in ('state', 'ctx', 'location', 'descr', 'reject', 'abort', 'macro',
+                                                          'empty', 'catch')
                    for _ in range(w)]
         guard = 0
         while len(ops) < nops and guard < 10 * nops:
@@ -1063,6 +1214,10 @@ class Gen:
                 continue
             if k == 'reject':
                 op = self.op_reject()
+            elif k == 'empty':
+                op = self.op_empty()
+            elif k == 'catch':
+                op = self.op_catch()
             else:
                 op = {'state': self.op_state, 'ctx': self.op_ctx, 'location': self.op_location,
                       'descr': self.op_descr}[k]()
@@ -1083,7 +1238,7 @@ class Gen:
 def scenario(g: Gen, i: int, mode=None):
     """the i-th crafted history (fixed structure; handles and payloads come from the generator's rng);
     mode: 'classic' | 'entity' | None (both interfaces mixed)"""
-    return SCENARIOS[i % len(SCENARIOS)](g, mode)
+    return g.finish(SCENARIOS[i % len(SCENARIOS)](g, mode))
 
 
 def _sc_cycles(g, mode):
@@ -1133,12 +1288,16 @@ def _sc_family(g, mode):
     return g.macro_family(mode) + g.macro_cycles(mode, cycles=2, stale=False)
 
 
+def _sc_handled(g, mode):
+    return g.macro_empty_and_handled() + g.macro_repeat(['metric', 'alert', 'comp', 'op', 'rt', 'ctx'])
+
+
 def _sc_overtake(g, mode):
     return g.macro_stale_after_delete(['metric', 'alert', 'comp', 'op', 'rt', 'ctx'])
 
 
 SCENARIOS = [_sc_cycles, _sc_cycles_stale, _sc_new_mds, _sc_ctx, _sc_abort, _sc_interleave, _sc_stale, _sc_family,
-             _sc_overtake]
+             _sc_overtake, _sc_handled]
 
 
 # ----------------------------------------------------------------------------- oracles on implementation traces
@@ -1195,10 +1354,44 @@ def oracle_provider(case, result):
                 yield 'C03', n, 'unexpected exception: ' + st['res'][:300]
         else:
             want = prev_ver + 1 if changed else prev_ver
-            if d['ver'] != want and not (d['ver'] == prev_ver + 1 and not changed and _nonempty(op)):
+            if d['ver'] != want and not (d['ver'] == prev_ver + 1 and not changed and _nonempty(op, st)):
                 yield 'C02', n, f'MdibVersion {prev_ver}->{d["ver"]} although the transaction changed {"something" if changed else "nothing"}'
         if d['index_problems']:
             yield 'C11', n, 'provider: ' + d['index_problems'][0]
+        # a call that the API refused (the application handled the exception inside the body, which then ended
+        # normally) leaves nothing of ITSELF in the commit
+        if st.get('caught') and st['res'] == 'ok':
+            gone = {c[0] for c in st['caught']}
+            stmts = op.get('items') or op.get('actions') or []
+
+            def key(x):
+                if op['k'] == 'state':
+                    return ('states', str(x[0]))
+                if op['k'] == 'ctx':
+                    return ('cstates', str(x[2] if x[0] == 'mk' else x[1])) if x[0] in ('mk', 'get', 'delstate') else None
+                return ('descrs', str(x[1]))
+            livek = {key(x) for i, x in enumerate(stmts) if i not in gone}
+            # objects that other statements of the body change as a side effect: disassociate_all the context states of
+            # its descriptor, a created / removed child its parent
+            for i, x in enumerate(stmts):
+                if i in gone:
+                    continue
+                if op['k'] == 'ctx' and x[0] == 'disall':
+                    livek |= {('cstates', h) for h, c in tb.t['cstates'].items() if str(c[1]) == str(x[1])}
+                if op['k'] == 'descr' and x[0] == 'add':
+                    livek.add(('descrs', str(x[2])))
+                if op['k'] == 'descr' and x[0] == 'del' and str(x[1]) in tb.t['descrs']:
+                    livek.add(('descrs', str(tb.t['descrs'][str(x[1])][1])))
+            for i in sorted(gone):
+                k = key(stmts[i]) if i < len(stmts) else None
+                if k is None or k in livek:
+                    continue
+                hit = [x for x in d[k[0]]['set'] if str(x[0]) == k[1]] or [h for h in d[k[0]]['del'] if h == k[1]]
+                if hit:
+                    why = dict(map(tuple, st['caught'])).get(i)
+                    yield 'C03', n, (f'statement {i} ({"one write_entities call with the others of the batch, " if op.get("batch", 0) > i else ""}'
+                                     f'{stmts[i][:2]}) was refused with {why} and the application handled that, but the commit '
+                                     f'contains its {k[0][:-1]} {k[1]}')
         # version counters
         for k in VER_POS:
             for x in d[k]['set']:
@@ -1251,8 +1444,13 @@ def oracle_provider(case, result):
                 yield 'C02', n, f'descriptor {h}: parent {x[1]} does not exist'
 
 
-def _nonempty(op):
-    return bool(op.get('items') or op.get('actions') or op['k'] == 'location')
+def _nonempty(op, st=None):
+    """statements of the body that count: not taken back (unget_state), not refused and handled"""
+    gone = {c[0] for c in (st or {}).get('caught') or []}
+    ug = op.get('unget')
+    gone |= set([ug] if isinstance(ug, int) else (ug or []))
+    n = len(op.get('items') or op.get('actions') or [])
+    return n > len(gone) or op['k'] == 'location'
 
 
 def _content(x):
@@ -1474,7 +1672,11 @@ def oracle_faults(case, result):
     if result['init'].get('cmode', 'initialized') != 'initialized':
         yield 'C06', -1, f'after the initial load the consumer state is {result["init"]["cmode"]}'
     frozen = False
-    cur_seq = init['seq']                  # the SequenceId the consumer mdib currently follows
+    # the SequenceId / InstanceId the consumer mdib currently follows
+    cur_vg = list((result['init'].get('cons_vg') or [None, init['seq'], init['inst']])[1:])
+
+    def foreign(r):
+        return r.get('seq') is not None and [r.get('seq'), r.get('inst')] != cur_vg
     for n, (op, st) in enumerate(zip(case['ops'], result['trace'])):
         for sub in st.get('during') or []:
             if 'prov' in sub:
@@ -1503,7 +1705,7 @@ def oracle_faults(case, result):
             ct = Tables({'ver': c['ver'], 'descrs': [], 'states': [], 'cstates': []})
             ct.apply(c)      # after a reload the tables are simply what the delta says relative to before
             if c.get('seqinst'):
-                cur_seq = c['seqinst'][0]
+                cur_vg = list(c['seqinst'])
             continue
         if c['index_problems']:
             yield 'C06', n, 'consumer lookups inconsistent: ' + c['index_problems'][0]
@@ -1530,8 +1732,9 @@ def oracle_faults(case, result):
         for r in st.get('delivered', []):
             if 'changed' not in r:
                 continue
-            if r.get('seq') is not None and r.get('seq') != cur_seq and r['changed']:
-                yield 'C06', n, ('a report with a different SequenceId was applied: it changed ' +
+            if foreign(r) and r['changed']:
+                yield 'C06', n, ('a report with a different ' + ('SequenceId' if r.get('seq') != cur_vg[0] else
+                                 f'InstanceId ({r.get("inst")} instead of {cur_vg[1]})') + ' was applied: it changed ' +
                                  ', '.join(PART[k] for k in r['changed']))
             elif (r.get('ver') is not None and r.get('cver') is not None and r['ver'] < r['cver'] and r['changed']
                   and r.get('cmode') == 'initialized'):
@@ -1544,5 +1747,6 @@ def oracle_faults(case, result):
             yield 'C06', n, f'the consumer adopted SequenceId/InstanceId {c["seqinst"]} without a reload'
         # a delivered report with a foreign sequence / instance id must invalidate an initialised consumer
         for r in st.get('delivered', []):
-            if r.get('seq') is not None and r.get('seq') != cur_seq and st.get('cmode') == 'initialized':
-                yield 'C06', n, 'a report with a different SequenceId was delivered but the consumer is still "initialized"'
+            if foreign(r) and st.get('cmode') == 'initialized':
+                yield 'C06', n, ('a report with a different ' + ('SequenceId' if r.get('seq') != cur_vg[0] else 'InstanceId') +
+                                 ' was delivered but the consumer is still "initialized"')
